@@ -1,4 +1,403 @@
+/-
+C10 — chain sync stores only verified beacons, in chain order, and converges when an honest peer exists.
+Model: Drand/Beacon/Sync.lean over the C02 store stack. Peer behaviours are arbitrary functions from the requested
+round to a response (dial error or an arbitrary list of stream items); `Sync` is analysed for an arbitrary list of
+peers in the order they are tried, i.e. for every permutation `rand.Perm` can produce.
+-/
 import Drand.Beacon.Sync
 import DrandProofs.C02
+
 namespace Drand.Beacon.Sync
+open Drand Drand.Store Drand.Chain
+
+/-! ### what one `Put` of tryNode does to the node -/
+
+theorem schemePut_base (s : Stack) (b : Beacon) :
+    ((s.schemePut b).2 = .ok → (s.schemePut b).1.base = Bolt.put s.base (storedForm s.chained b) ∧
+        (s.schemePut b).1.chained = s.chained) ∧
+    ((s.schemePut b).2 ≠ .ok → (s.schemePut b).1 = s) := by
+  unfold Stack.schemePut storedForm
+  cases hc : s.chained with
+  | true =>
+    simp only [if_true]
+    by_cases h3 : s.schemeLast.sig ≠ b.prev
+    · simp [h3]
+    · simp [h3]
+  | false => simp
+
+theorem put_base (s : Stack) (b : Beacon) :
+    ((s.put b).2 = .ok → (s.put b).1.base = Bolt.put s.base (storedForm s.chained b) ∧ (s.put b).1.chained = s.chained) ∧
+    ((s.put b).2 ≠ .ok → (s.put b).1 = s) := by
+  unfold Stack.put
+  split
+  · split
+    · split <;> simp
+    · simp
+  · split
+    · simp
+    · exact schemePut_base s b
+
+/-- every state change of `store1` is one base-store write of the logged beacon -/
+theorem store1_spec (cfg : Cfg) (resync : Bool) (n : Node) (b : Beacon) :
+    ((store1 cfg resync n b).2 = .ok →
+        ∃ st, (store1 cfg resync n b).1 = { n with st := st, writes := ⟨b, if resync then b else storedForm n.st.chained b⟩ :: n.writes } ∧
+          st.base = Bolt.put n.st.base (if resync then b else storedForm n.st.chained b) ∧ st.chained = n.st.chained) ∧
+    ((store1 cfg resync n b).2 ≠ .ok → (store1 cfg resync n b).1 = n) := by
+  unfold store1
+  cases resync with
+  | true => simp [Stack.rawPut]
+  | false =>
+    simp only [Bool.false_eq_true, if_false]
+    cases hm : cfg.mode with
+    | participant =>
+      simp only
+      by_cases hok : (n.st.put b).2 = .ok
+      · simp only [hok, if_true]
+        exact ⟨fun _ => ⟨_, rfl, (put_base n.st b).1 hok⟩, fun h => absurd rfl h⟩
+      · simp [hok]
+    | follow =>
+      simp only
+      by_cases hok : (n.st.schemePut b).2 = .ok
+      · simp only [hok, if_true]
+        exact ⟨fun _ => ⟨_, rfl, (schemePut_base n.st b).1 hok⟩, fun h => absurd rfl h⟩
+      · simp [hok]
+
+/-! ### induction principles: an invariant of one accepted packet is an invariant of every sync entry point -/
+
+/-- `P last n`: `last` is tryNode's local variable, `n` the node -/
+structure Inv (cfg : Cfg) (resync : Bool) (from_ upTo : Nat) (P : Nat → Node → Prop) : Prop where
+  step : ∀ last n b, P last n → cfg.verify b = true → roundOk cfg resync from_ upTo last b = true →
+    (store1 cfg resync n b).2 = .ok → P b.round (store1 cfg resync n b).1
+  calls : ∀ l n c, P l n → P l { n with calls := c }
+  head : ∀ l n, P l n → P n.head n
+
+theorem loop_ind {cfg : Cfg} {resync : Bool} {from_ upTo : Nat} {P : Nat → Node → Prop}
+    (hI : Inv cfg resync from_ upTo P) :
+    ∀ (items : List Item) (last : Nat) (n : Node), P last n → ∃ l, P l (loop cfg resync from_ upTo last n items).1 := by
+  intro items
+  induction items with
+  | nil => intro last n h; exact ⟨last, h⟩
+  | cons it rest ih =>
+    intro last n h
+    cases it with
+    | close => exact ⟨last, h⟩
+    | stall => exact ⟨last, h⟩
+    | pkt b idOk =>
+      unfold loop
+      split
+      · exact ⟨last, h⟩
+      · split
+        · exact ⟨last, h⟩
+        · split
+          · exact ⟨last, h⟩
+          · next h1 h2 h3 =>
+            simp only
+            split
+            · next hok =>
+              have hP := hI.step last n b h (by simpa using h2) (by simpa using h3) hok
+              split
+              · exact ⟨_, hP⟩
+              · exact ih _ _ hP
+            · split <;> exact ⟨last, h⟩
+
+theorem tryNode_ind {cfg : Cfg} {from_ upTo : Nat} {P : Nat → Node → Prop}
+    (hI : ∀ f, (from_ ≠ 0 → f = from_) → Inv cfg (decide (from_ > 0)) f upTo P) (n : Node) (p : Peer) (h : P n.head n) :
+    P (tryNode cfg from_ upTo n p).1.head (tryNode cfg from_ upTo n p).1 := by
+  unfold tryNode
+  simp only
+  split
+  · exact h
+  · split
+    · exact h
+    · have hI2 := hI (if from_ = 0 then n.head + 1 else from_) (fun hne => by simp [hne])
+      have h1 := hI2.calls _ _ ((p.addr, if from_ = 0 then n.head + 1 else from_) :: n.calls) h
+      split
+      · exact hI2.head _ _ h1
+      · next items _ =>
+        obtain ⟨l, hl⟩ := loop_ind hI2 items n.head _ h1
+        exact hI2.head _ _ hl
+
+theorem sync_ind {cfg : Cfg} {self : String} {from_ upTo : Nat} {P : Nat → Node → Prop}
+    (hI : ∀ f, (from_ ≠ 0 → f = from_) → Inv cfg (decide (from_ > 0)) f upTo P) :
+    ∀ (ps : List Peer) (dead : Bool) (n : Node), P n.head n →
+      P (sync cfg self from_ upTo dead n ps).1.head (sync cfg self from_ upTo dead n ps).1 := by
+  intro ps
+  induction ps with
+  | nil => intro dead n h; exact h
+  | cons p ps ih =>
+    intro dead n h
+    unfold sync
+    split
+    · exact ih _ _ h
+    · split
+      · exact h
+      · have ht := tryNode_ind hI n p h
+        simp only
+        split
+        · exact ht
+        · exact ih _ _ ht
+        · exact ih _ _ ht
+
+theorem reSync_ind {cfg : Cfg} {self : String} {from_ to : Nat} {P : Nat → Node → Prop}
+    (hI : from_ ≠ 0 → Inv cfg true from_ to P) (dead : Bool) (n : Node) (ps1 ps2 : List Peer) (h : P n.head n) :
+    P (reSync cfg self from_ to dead n ps1 ps2).1.head (reSync cfg self from_ to dead n ps1 ps2).1 := by
+  unfold reSync
+  split
+  · exact h
+  · next hne =>
+    have hI' : ∀ f, (from_ ≠ 0 → f = from_) → Inv cfg (decide (from_ > 0)) f to P := by
+      intro f hf
+      have : decide (from_ > 0) = true := by simp; omega
+      rw [this, hf hne]; exact hI hne
+    have h1 := sync_ind (self := self) hI' ps1 dead n h
+    simp only
+    split
+    · exact sync_ind (self := self) hI' ps2 _ _ h1
+    · exact h1
+
+theorem correctLoop_ind {cfg : Cfg} {self : String} {env : Nat → List Peer × List Peer} {P : Nat → Node → Prop} :
+    ∀ (fb : List Nat), (∀ x ∈ fb, x ≠ 0 → Inv cfg true x x P) → ∀ (i : Nat) (dead : Bool) (n : Node) (errs : Nat),
+      P n.head n → P (correctLoop cfg self env i dead n errs fb).1.head (correctLoop cfg self env i dead n errs fb).1 := by
+  intro fb
+  induction fb with
+  | nil => intro _ i dead n errs h; exact h
+  | cons b rest ih =>
+    intro hI i dead n errs h
+    unfold correctLoop
+    split
+    · exact h
+    · exact ih (fun x hx => hI x (List.mem_cons_of_mem _ hx)) _ _ _ _
+        (reSync_ind (hI b List.mem_cons_self) false n _ _ h)
+
+theorem followLoop_ind {cfg : Cfg} {self : String} {upTo : Nat} {P : Nat → Node → Prop}
+    (hI : ∀ f, Inv cfg false f upTo P) :
+    ∀ (atts : List (List Peer)) (n : Node), P n.head n →
+      P (followLoop cfg self upTo n atts).1.head (followLoop cfg self upTo n atts).1 := by
+  intro atts
+  induction atts with
+  | nil => intro n h; exact h
+  | cons ps rest ih =>
+    intro n h
+    have hI' : ∀ f, ((0 : Nat) ≠ 0 → f = 0) → Inv cfg (decide ((0 : Nat) > 0)) f upTo P := fun f _ => by simpa using hI f
+    have h1 := sync_ind (self := self) hI' ps false n h
+    unfold followLoop
+    simp only
+    split
+    · exact h1
+    · exact h1
+    · split
+      · exact ih _ h1
+      · exact h1
+
+/-! ### only verified beacons are written -/
+
+theorem storedForm_fields (c : Bool) (b : Beacon) :
+    (storedForm c b).round = b.round ∧ (storedForm c b).sig = b.sig ∧
+      ((storedForm c b).prev = b.prev ∨ (storedForm c b).prev = []) := by
+  unfold storedForm; cases c <;> simp
+
+/-- between `n0` and `n` the base store changed by exactly the logged writes `ws` (newest first), and each of them is a
+packet the verification oracle accepted -/
+def NewWrites (cfg : Cfg) (n0 n : Node) : Prop :=
+  ∃ ws : List Write, n.writes = ws ++ n0.writes ∧
+    n.st.base = ws.foldr (fun w acc => Bolt.put acc w.stored) n0.st.base ∧
+    ∀ w ∈ ws, cfg.verify w.pkt = true ∧ w.stored.round = w.pkt.round ∧ w.stored.sig = w.pkt.sig ∧
+      (w.stored.prev = w.pkt.prev ∨ w.stored.prev = [])
+
+theorem newWrites_inv (cfg : Cfg) (resync : Bool) (f upTo : Nat) (n0 : Node) :
+    Inv cfg resync f upTo (fun _ n => NewWrites cfg n0 n) := by
+  refine ⟨?_, fun _ _ _ h => h, fun _ _ h => h⟩
+  intro last n b ⟨ws, hw, hb, hv⟩ hver _ hok
+  obtain ⟨st, hst, hbase, _⟩ := (store1_spec cfg resync n b).1 hok
+  rw [hst]
+  refine ⟨⟨b, if resync then b else storedForm n.st.chained b⟩ :: ws, by simp [hw], by simp [hbase, hb], ?_⟩
+  intro w hwm
+  rcases List.mem_cons.1 hwm with rfl | hwm
+  · refine ⟨hver, ?_⟩
+    cases resync with
+    | true => simp
+    | false => simpa using storedForm_fields n.st.chained b
+  · exact hv w hwm
+
+theorem newWrites_refl (cfg : Cfg) (n : Node) : NewWrites cfg n n := ⟨[], rfl, rfl, fun _ h => by cases h⟩
+
+/-- **c10_only_verified.** Whatever the peers stream and in whatever order they are tried, every change any sync entry
+point (Sync in participant or follow mode, ReSync, CorrectPastBeacons, the follow loop) makes to the base store is the
+write of a packet for which `VerifyBeacon` answered true; the stored beacon carries that packet's round and signature. -/
+theorem c10_only_verified (cfg : Cfg) (self : String) (n : Node) :
+    (∀ from_ upTo dead ps, NewWrites cfg n (sync cfg self from_ upTo dead n ps).1) ∧
+    (∀ from_ to dead ps1 ps2, NewWrites cfg n (reSync cfg self from_ to dead n ps1 ps2).1) ∧
+    (∀ env fb, NewWrites cfg n (correctPast cfg self env n fb).1) ∧
+    (∀ upTo atts, NewWrites cfg n (followLoop cfg self upTo n atts).1) := by
+  refine ⟨?_, ?_, ?_, ?_⟩
+  · intro from_ upTo dead ps
+    exact sync_ind (P := fun _ m => NewWrites cfg n m) (fun f _ => newWrites_inv cfg _ f upTo n) ps dead n (newWrites_refl cfg n)
+  · intro from_ to dead ps1 ps2
+    exact reSync_ind (P := fun _ m => NewWrites cfg n m) (fun _ => newWrites_inv cfg _ from_ to n) dead n ps1 ps2 (newWrites_refl cfg n)
+  · intro env fb
+    exact correctLoop_ind (P := fun _ m => NewWrites cfg n m) fb (fun x _ _ => newWrites_inv cfg _ x x n) 0 false n 0 (newWrites_refl cfg n)
+  · intro upTo atts
+    exact followLoop_ind (P := fun _ m => NewWrites cfg n m) (fun f => newWrites_inv cfg _ f upTo n) atts n (newWrites_refl cfg n)
+
+/-! ### a successful `Put` through the participant stack, seen from the node -/
+
+theorem put_eq_schemePut (s : Stack) (b : Beacon) (h : ChainInv s) (hr : b.round = (Stack.last s.base).round + 1) :
+    s.put b = s.schemePut b := by
+  unfold Stack.put
+  rw [h.head.1, if_neg (by omega), if_neg (by simp; omega)]
+
+/-- `n'` is `n` after beacon `b` went through a successful `appendStore.Put` -/
+structure Appended (n n' : Node) (b : Beacon) : Prop where
+  ok : (n.st.put b).2 = .ok
+  st : n'.st = (n.st.put b).1
+  wr : n'.writes = ⟨b, storedForm n.st.chained b⟩ :: n.writes
+  calls : n'.calls = n.calls
+
+structure AppendFacts (n n' : Node) (b : Beacon) : Prop where
+  round : b.round = n.head + 1
+  inv : ChainInv n'.st
+  head : n'.head = b.round
+  chained : n'.st.chained = n.st.chained
+  look : ∀ r, lookup r n'.st.base = if r = b.round then some (storedForm n.st.chained b) else lookup r n.st.base
+
+theorem appended_facts {n n' : Node} {b : Beacon} (hc : ChainInv n.st) (ha : Appended n n' b) : AppendFacts n n' b := by
+  have h1 := (c02_append_only n.st b hc).1 ha.ok
+  have h2 := (put_base n.st b).1 ha.ok
+  refine ⟨h1.1, ?_, ?_, ?_, ?_⟩
+  · rw [ha.st]; exact c02_put_inv n.st b hc
+  · unfold Node.head; rw [ha.st]; exact h1.2.1
+  · rw [ha.st]; exact h2.2
+  · intro r
+    rw [ha.st, h2.1]
+    have := c18_lookup_insert (storedForm n.st.chained b).round r (storedForm n.st.chained b) n.st.base
+    rw [(storedForm_fields n.st.chained b).1] at this
+    unfold Bolt.put
+    rw [(storedForm_fields n.st.chained b).1]
+    exact this
+
+theorem store1_participant {cfg : Cfg} (hm : cfg.mode = .participant) (n : Node) (b : Beacon)
+    (hok : (store1 cfg false n b).2 = .ok) : Appended n (store1 cfg false n b).1 b := by
+  unfold store1 at hok ⊢
+  simp only [Bool.false_eq_true, if_false, hm] at hok ⊢
+  by_cases h : (n.st.put b).2 = .ok
+  · simp only [h, if_true]
+    exact ⟨h, rfl, rfl, rfl⟩
+  · simp [h] at hok
+
+theorem store1_follow {cfg : Cfg} (hm : cfg.mode = .follow) (n : Node) (b : Beacon) (hc : ChainInv n.st)
+    (hr : b.round = n.head + 1) (hok : (store1 cfg false n b).2 = .ok) : Appended n (store1 cfg false n b).1 b := by
+  have he := put_eq_schemePut n.st b hc hr
+  unfold store1 at hok ⊢
+  simp only [Bool.false_eq_true, if_false, hm] at hok ⊢
+  by_cases h : (n.st.schemePut b).2 = .ok
+  · simp only [h, if_true]
+    exact ⟨by rw [he]; exact h, by rw [he], rfl, rfl⟩
+  · simp [h] at hok
+
+/-! ### chain order -/
+
+/-- since `n0` the node only appended: the writes are rounds head+1, head+2, …, in that order, nothing below moved -/
+def InOrder (n0 n : Node) : Prop :=
+  ChainInv n.st ∧ n.st.chained = n0.st.chained ∧
+  ∃ ws : List Write, n.writes = ws ++ n0.writes ∧
+    ws.reverse.map (·.stored.round) = List.range' (n0.head + 1) ws.length ∧
+    n.head = n0.head + ws.length ∧
+    ∀ k, k ≤ n0.head → lookup k n.st.base = lookup k n0.st.base
+
+theorem inOrder_refl (n : Node) (h : ChainInv n.st) : InOrder n n :=
+  ⟨h, rfl, [], rfl, rfl, rfl, fun _ _ => rfl⟩
+
+theorem inOrder_step {n0 n n' : Node} {b : Beacon} (h : InOrder n0 n) (ha : Appended n n' b) : InOrder n0 n' := by
+  obtain ⟨hc, hch, ws, hw, hr, hh, hl⟩ := h
+  have f := appended_facts hc ha
+  refine ⟨f.inv, by rw [f.chained, hch], ⟨b, storedForm n.st.chained b⟩ :: ws, by rw [ha.wr, hw]; rfl, ?_, ?_, ?_⟩
+  · simp only [List.reverse_cons, List.map_append, List.map_cons, List.map_nil, List.length_cons, hr]
+    rw [(storedForm_fields _ _).1, f.round, hh, List.range'_concat]
+    simp; omega
+  · rw [f.head, f.round, hh]; simp; omega
+  · intro k hk
+    rw [f.look k, if_neg (by rw [f.round, hh]; omega)]
+    exact hl k hk
+
+theorem inOrder_calls {n0 n : Node} (c : List (String × Nat)) (h : InOrder n0 n) : InOrder n0 { n with calls := c } := h
+
+theorem roundOk_follow {cfg : Cfg} (hrc : cfg.roundCheck = true) {f upTo last : Nat} {b : Beacon}
+    (h : roundOk cfg false f upTo last b = true) : b.round = last + 1 := by
+  unfold roundOk at h
+  simpa [hrc] using h
+
+/-- the participant stack, or tryNode with the round check: every accepted packet is an append -/
+theorem order_inv (cfg : Cfg) (hgood : cfg.mode = .participant ∨ cfg.roundCheck = true) (f upTo : Nat) (n0 : Node) :
+    Inv cfg false f upTo (fun last n => InOrder n0 n ∧ last = n.head) := by
+  refine ⟨?_, fun _ _ _ h => h, fun _ _ h => ⟨h.1, rfl⟩⟩
+  intro last n b ⟨hio, hl⟩ _ hro hok
+  have ha : Appended n (store1 cfg false n b).1 b := by
+    cases hm : cfg.mode with
+    | participant => exact store1_participant hm n b hok
+    | follow =>
+      rcases hgood with hp | hrc
+      · rw [hm] at hp; cases hp
+      · exact store1_follow hm n b hio.1 (by rw [← hl]; exact roundOk_follow hrc hro) hok
+  exact ⟨inOrder_step hio ha, (appended_facts hio.1 ha).head.symm⟩
+
+/-- **c10_in_order.** Participant mode (callbackStore → appendStore → schemeStore → base): for every list of peers in
+every order and every behaviour, the beacons `Sync` writes are exactly rounds head+1, head+2, … in that order, nothing
+stored before is touched, and the store stays the gap-free linked chain of C02. -/
+theorem c10_in_order (cfg : Cfg) (hm : cfg.mode = .participant) (self : String) (upTo : Nat) (dead : Bool) (n : Node)
+    (ps : List Peer) (h : ChainInv n.st) : InOrder n (sync cfg self 0 upTo dead n ps).1 :=
+  (sync_ind (P := fun last m => InOrder n m ∧ last = m.head)
+    (fun f _ => by simpa using order_inv cfg (Or.inl hm) f upTo n) ps dead n ⟨inOrder_refl n h, rfl⟩).1
+
+/-- **c10_follow_order** (corrected variant `roundCheck`): with the round check in tryNode the same holds for the follow
+stack, which has no appendStore, for chained and unchained schemes alike; also through the follow loop. -/
+theorem c10_follow_order (cfg : Cfg) (hrc : cfg.roundCheck = true) (self : String) (upTo : Nat) (n : Node)
+    (h : ChainInv n.st) :
+    (∀ dead ps, InOrder n (sync cfg self 0 upTo dead n ps).1) ∧
+    (∀ atts, InOrder n (followLoop cfg self upTo n atts).1) := by
+  constructor
+  · intro dead ps
+    exact (sync_ind (P := fun last m => InOrder n m ∧ last = m.head)
+      (fun f _ => by simpa using order_inv cfg (Or.inr hrc) f upTo n) ps dead n ⟨inOrder_refl n h, rfl⟩).1
+  · intro atts
+    exact (followLoop_ind (P := fun last m => InOrder n m ∧ last = m.head)
+      (fun f => order_inv cfg (Or.inr hrc) f upTo n) atts n ⟨inOrder_refl n h, rfl⟩).1
+
+/-! ### validity of what is stored -/
+
+/-- verification of an unchained beacon does not look at the previous signature (schemeStore strips it before storing) -/
+def StripOk (verify : Beacon → Bool) (chained : Bool) : Prop :=
+  chained = false → ∀ b, verify b = true → verify { b with prev := [] } = true
+
+theorem valid_step {verify : Beacon → Bool} {n n' : Node} {b : Beacon} (hs : StripOk verify n.st.chained)
+    (hc : ChainInv n.st) (hv : Valid verify n.st) (hb : verify b = true) (ha : Appended n n' b) : Valid verify n'.st := by
+  have f := appended_facts hc ha
+  intro r b' hr hl
+  rw [f.look r] at hl
+  split at hl
+  · cases hl
+    unfold storedForm
+    cases hch : n.st.chained with
+    | true => simpa using hb
+    | false => simpa using hs hch b hb
+  · exact hv r b' hr hl
+
+/-- **c10_bad_peer_harmless.** Participant mode: whatever the peers do, `Sync` leaves the store a gap-free linked chain
+(`ChainInv`) that holds verifying beacons only (`Valid`), the head never moves back and no stored round changes. -/
+theorem c10_bad_peer_harmless (cfg : Cfg) (hm : cfg.mode = .participant) (self : String) (upTo : Nat) (dead : Bool)
+    (n : Node) (ps : List Peer) (hc : ChainInv n.st) (hv : Valid cfg.verify n.st) (hs : StripOk cfg.verify n.st.chained) :
+    let r := (sync cfg self 0 upTo dead n ps).1
+    ChainInv r.st ∧ Valid cfg.verify r.st ∧ n.head ≤ r.head ∧ ∀ k, k ≤ n.head → lookup k r.st.base = lookup k n.st.base := by
+  have hI : ∀ f, Inv cfg false f upTo (fun last m => (InOrder n m ∧ last = m.head) ∧ Valid cfg.verify m.st) := by
+    intro f
+    have h1 := order_inv cfg (Or.inl hm) f upTo n
+    refine ⟨?_, fun l m c h => ⟨h1.calls l m c h.1, h.2⟩, fun l m h => ⟨h1.head l m h.1, h.2⟩⟩
+    intro last m b ⟨hP, hval⟩ hver hro hok
+    refine ⟨h1.step last m b hP hver hro hok, ?_⟩
+    exact valid_step (by rw [hP.1.2.1]; exact hs) hP.1.1 hval hver (store1_participant hm m b hok)
+  have := sync_ind (cfg := cfg) (self := self) (from_ := 0) (upTo := upTo)
+    (P := fun last m => (InOrder n m ∧ last = m.head) ∧ Valid cfg.verify m.st)
+    (fun f _ => by simpa using hI f) ps dead n ⟨⟨inOrder_refl n hc, rfl⟩, hv⟩
+  obtain ⟨⟨⟨hci, _, ws, _, _, hh, hl⟩, _⟩, hval⟩ := this
+  exact ⟨hci, hval, by omega, hl⟩
+
 end Drand.Beacon.Sync
